@@ -261,3 +261,16 @@ Fixpoint addr_history (st6 : apool -> list N -> apool) (p : apool) (h : list (bo
       let p1 := if is6 then st6 p a else store4 p a in
       ap_ip p1 :: addr_history st6 p1 r
   end.
+
+(* The same with the repair of notes/C18-fix3.patch: the datagrams carried by the
+   messages that the first attempt already handed to the kernel are not sent
+   again.  (The patch finds their number by walking the written messages and
+   the batch by byte counts; here it is the number of wire datagrams of t1.) *)
+Definition send_with_gso_disable_fixed (wire_of : list msg -> list (list N))
+  (c : cfg) (bufs : list buf) (oracle1 oracle2 : list wres) : list msg * list msg * bool :=
+  let first := coalesce c bufs in
+  let '(t1, _) := send_loop (S (length first)) first 0 oracle1 in
+  let rest := skipn (length (wire_of t1)) bufs in
+  let second := unmerged c (first ++ repeat {| m_data := []; m_cap := 0; m_oob := []; m_gso := []; m_addr := 0 |} (length bufs)) rest in
+  let '(t2, e2) := send_loop (S (length second)) second 0 oracle2 in
+  (t1, t2, e2).
